@@ -1,6 +1,6 @@
 (* C10 — Arena bookkeeping and reported statistics are always coherent. *)
 From Coq Require Import ZArith List.
-From BS Require Import Word BumpSpec ChunkSpec Arena ArenaInv ArenaStats.
+From BS Require Import Word BumpSpec ChunkSpec Arena ArenaInv ArenaStats ArenaExt ArenaInv2 ArenaSizes.
 Import ListNotations.
 Open Scope Z_scope.
 
@@ -26,13 +26,32 @@ Theorem C10_dummy_reports_zero :
   forall c s, (forall i, cur s <> Cur i) -> arena_stats c s = mkStats 0 0 0 0 0.
 Proof. exact dummy_reports_zero. Qed.
 
-(* the geometric invariant holds in every reachable state (all operations except grow/shrink:
-   PARTIAL, see C01) *)
+(* the geometric invariant holds in every reachable state (the older statement over the
+   operations proved first is kept; C10_reachable is the full one) *)
 Theorem C10_reachable_partial :
   forall c ops s, cfg_ok c -> inv c s -> run_ok c s ops -> ginv c (run c s ops).
 Proof. intros c ops s Hc Hi Hr. exact (proj1 (run_inv_partial c ops s Hc Hi Hr)). Qed.
 
+Theorem C10_reachable :
+  forall c xs s, cfg_ok c -> inv c s -> hok c s xs -> ginv c (hrun c s xs).
+Proof. intros c xs s Hc Hi Hr. exact (proj1 (run_inv c xs s Hc Hi Hr)). Qed.
+
+(* the chunk list, read in order, has strictly growing chunk sizes in every reachable state *)
+Theorem C10_chunks_strictly_grow :
+  forall c xs s i a b,
+  cfg_ok c -> incr (sizes s) -> hok c s xs ->
+  nth_error (chunks (hrun c s xs)) i = Some a -> nth_error (chunks (hrun c s xs)) (S i) = Some b ->
+  csize a < csize b.
+Proof. exact chunks_strictly_grow. Qed.
+
+Theorem C10_fresh_arena_qualifies :
+  forall c s, cfg_ok c -> ginv c s -> (length (chunks s) <= 1)%nat -> incr (sizes s).
+Proof. exact incr_fresh. Qed.
+
 Print Assumptions C10_stats_identities.
+Print Assumptions C10_reachable.
+Print Assumptions C10_chunks_strictly_grow.
+Print Assumptions C10_fresh_arena_qualifies.
 Print Assumptions C10_position_and_geometry.
 Print Assumptions C10_dummy_reports_zero.
 Print Assumptions C10_reachable_partial.
